@@ -412,9 +412,9 @@ static void op_vec(void)
     else if (!strcmp(op, "RelEntropy")) h_out("ok %s", DB(esl_vec_DRelEntropy(x, y, n)));
     else if (!strcmp(op, "CDF"))      { double *c = malloc(8*n + 8); esl_vec_DCDF(x, n, c); out_dvec(c, n); free(c); }
     else if (!strcmp(op, "CDFInPlace")) { esl_vec_DCDF(x, n, x); out_dvec(x, n); }
-    else if (!strcmp(op, "Validate")) { char eb[eslERRBUFSIZE]; h_out("ok %s", h_status(esl_vec_DValidate(x, n, sd, eb))); }
-    else if (!strcmp(op, "LogValidate")) { char eb[eslERRBUFSIZE]; h_out("ok %s", h_status(esl_vec_DLogValidate(x, n, sd, eb))); }
-    else if (!strcmp(op, "Log2Validate")) { char eb[eslERRBUFSIZE]; h_out("ok %s", h_status(esl_vec_DLog2Validate(x, n, sd, eb))); }
+    else if (!strcmp(op, "Validate")) { char eb[eslERRBUFSIZE]; int st; memset(eb, 0x55, sizeof eb); st = esl_vec_DValidate(x, n, sd, eb); h_out("ok %s %s", h_status(st), eb[0] ? "msg" : "nomsg"); }
+    else if (!strcmp(op, "LogValidate")) { char eb[eslERRBUFSIZE]; int st; memset(eb, 0x55, sizeof eb); st = esl_vec_DLogValidate(x, n, sd, eb); h_out("ok %s %s", h_status(st), eb[0] ? "msg" : "nomsg"); }
+    else if (!strcmp(op, "Log2Validate")) { char eb[eslERRBUFSIZE]; int st; memset(eb, 0x55, sizeof eb); st = esl_vec_DLog2Validate(x, n, sd, eb); h_out("ok %s %s", h_status(st), eb[0] ? "msg" : "nomsg"); }
     else h_out("bad-op");
   } else if (T == 'F') {
     float *x = (float *) xb, *y = (float *) yb; n = nx / 4;
@@ -451,9 +451,9 @@ static void op_vec(void)
     else if (!strcmp(op, "Entropy"))  h_out("ok %s", FB(esl_vec_FEntropy(x, n)));
     else if (!strcmp(op, "RelEntropy")) h_out("ok %s", FB(esl_vec_FRelEntropy(x, y, n)));
     else if (!strcmp(op, "CDF"))      { float *c = malloc(4*n + 4); esl_vec_FCDF(x, n, c); out_fvec(c, n); free(c); }
-    else if (!strcmp(op, "Validate")) { char eb[eslERRBUFSIZE]; h_out("ok %s", h_status(esl_vec_FValidate(x, n, sf, eb))); }
-    else if (!strcmp(op, "LogValidate")) { char eb[eslERRBUFSIZE]; h_out("ok %s", h_status(esl_vec_FLogValidate(x, n, sf, eb))); }
-    else if (!strcmp(op, "Log2Validate")) { char eb[eslERRBUFSIZE]; h_out("ok %s", h_status(esl_vec_FLog2Validate(x, n, sf, eb))); }
+    else if (!strcmp(op, "Validate")) { char eb[eslERRBUFSIZE]; int st; memset(eb, 0x55, sizeof eb); st = esl_vec_FValidate(x, n, sf, eb); h_out("ok %s %s", h_status(st), eb[0] ? "msg" : "nomsg"); }
+    else if (!strcmp(op, "LogValidate")) { char eb[eslERRBUFSIZE]; int st; memset(eb, 0x55, sizeof eb); st = esl_vec_FLogValidate(x, n, sf, eb); h_out("ok %s %s", h_status(st), eb[0] ? "msg" : "nomsg"); }
+    else if (!strcmp(op, "Log2Validate")) { char eb[eslERRBUFSIZE]; int st; memset(eb, 0x55, sizeof eb); st = esl_vec_FLog2Validate(x, n, sf, eb); h_out("ok %s %s", h_status(st), eb[0] ? "msg" : "nomsg"); }
     else h_out("bad-op");
   } else if (T == 'I') {
     int *x = (int *) xb, *y = (int *) yb; n = nx / 4;
